@@ -201,6 +201,85 @@ static void cv_stop_token()
     pmc_outcome("result=%d also_flag=%d", result, also_flag);
 }
 
+// one notify_one for two waiters, one of them timed without predicate: the notification must reach a waiter
+// that reports it - the untimed waiter returns, or the timed one returns no_timeout.  (A timed waiter whose
+// deadline has just passed must not swallow the notification and still report a timeout.)
+struct Mixed { int a_waiting = 0, b_waiting = 0, a_returned = 0, b_returned = 0, b_notified = 0, issued = 0, finished = 0; };
+static Mixed* g_mixed;
+static void mixed_stuck()
+{
+    Mixed& x = *g_mixed;
+    if (x.issued && !x.a_returned && !(x.b_returned && x.b_notified))
+        pmc_fail("lost-notification", "notify_one was issued while the untimed waiter was waiting, but it never returned and the timed waiter %s", x.b_returned ? "reported a timeout" : "did not return either");
+}
+template <typename CV, typename M>
+static void cv_timed_and_untimed()
+{
+    static Mixed x;
+    x = Mixed{};
+    g_mixed = &x;
+    int b_first = pmc_choose(2, 0);    // which waiter is queued first
+    auto& m = *new M;
+    auto& cv = *new CV;
+    pmc_watch(&cv, sizeof cv, "cv");
+    pmc_watch(cv.data_.get(), sizeof *cv.data_, "cv_data");
+    pmc_on_stuck(mixed_stuck);
+    rt::start();
+    rt::spawn([&, b_first] {    // A: untimed
+        rt::watch_self("A");
+        int guard = 0;
+        while (b_first && !x.b_waiting && ++guard < 300) pika::this_thread::yield();
+        std::unique_lock<M> l(m);
+        x.a_waiting = 1;
+        cv.wait(l);
+        x.a_returned = 1;
+        pmc_progress();
+        l.unlock();
+        ++x.finished;
+    });
+    rt::spawn([&, b_first] {    // B: timed, no predicate
+        rt::watch_self("B");
+        int guard = 0;
+        while (!b_first && !x.a_waiting && ++guard < 300) pika::this_thread::yield();
+        std::unique_lock<M> l(m);
+        x.b_waiting = 1;
+        pmc_deadline(pmc_now() + 1000000ull);
+        auto st = cv.wait_for(l, 1ms);
+        x.b_notified = st == pika::cv_status::no_timeout;
+        x.b_returned = 1;
+        pmc_progress();
+        l.unlock();
+        ++x.finished;
+    });
+    rt::spawn([&] {    // notifier
+        int guard = 0;
+        for (;;)
+        {
+            {
+                std::unique_lock<M> l(m);
+                if (x.a_waiting && x.b_waiting) break;
+            }
+            if (++guard > 400) { pmc_fail("harness", "waiters did not register"); }
+            pika::this_thread::yield();
+        }
+        {
+            std::unique_lock<M> l(m);
+            if (!x.a_returned) x.issued = 1;    // A is in the queue: somebody must get this notification
+        }
+        cv.notify_one();
+        pmc_progress();
+        // if the timed waiter took the notification, release the untimed one with a second notification
+        guard = 0;
+        while (!x.b_returned && !x.a_returned && ++guard < 4000) pika::this_thread::yield();
+        while (!x.b_returned && ++guard < 8000) pika::this_thread::yield();
+        if (x.b_notified && !x.a_returned) cv.notify_one();
+        ++x.finished;
+    });
+    rt::stop();
+    PMC_ASSERT(x.finished == 3 && x.a_returned && x.b_returned, "lost-notification", "finished %d of 3: untimed waiter returned %d, timed waiter returned %d (notified %d)", x.finished, x.a_returned, x.b_returned, x.b_notified);
+    pmc_outcome("b_first=%d b_notified=%d", b_first, x.b_notified);
+}
+
 int main(int argc, char** argv)
 {
     static const char* focus = "F-addr: condition_variable handle + heap condition_variable_data (internal spinlock, queue, refcount) + user lock + each task's thread_data";
@@ -210,6 +289,7 @@ int main(int argc, char** argv)
         {"cv_1w", cv_tasks<cv_t, pika::mutex, 1>, 1, 2, 0.2, 0.2, 1, focus, nullptr, nullptr},
         {"cv_2w", cv_tasks<cv_t, pika::mutex, 2>, 1, 2, 0.3, 0.3, 1, focus, nullptr, nullptr},
         {"cva_spin_2w", cv_tasks<cva_t, pika::concurrency::detail::spinlock, 2>, 1, 2, 0.15, 0.15, 1, "condition_variable_any with a spinlock as user lock", nullptr, nullptr},
+        {"cv_timed_and_untimed", cv_timed_and_untimed<cv_t, pika::mutex>, 2, 3, 0.15, 0.1, 1, "one notify_one, an untimed and a timed (no predicate) waiter", nullptr, nullptr},
         {"cv_stop", cv_stop_token<0>, 1, 2, 0.1, 0.1, 1, "stop-token wait: cv, cv_data, user lock, stop_state", nullptr, nullptr},
         {"cv_stop_timed", cv_stop_token<1>, 1, 2, 0.1, 0.1, 1, "stop-token wait_for", nullptr, nullptr},
         {"cva_os_2w", cv_os<2>, 2, 3, 0.15, 0.15, 1, "condition_variable_any + std::mutex on plain OS threads; all pthread operations are points", nullptr, nullptr},
